@@ -87,6 +87,22 @@ M = [
  ("MINFO::into_owned exchanges the mailboxes", D + 'rdata/minfo.rs', "rmailbox: self.rmailbox.into_owned(),\n            emailbox: self.emailbox.into_owned(),", "rmailbox: self.emailbox.into_owned(),\n            emailbox: self.rmailbox.into_owned(),", 'fail:into_owned_fieldwise'),
  ("SOA::into_owned takes minimum from expire", D + 'rdata/soa.rs', "minimum: self.minimum,", "minimum: self.expire as u32,", 'fail:into_owned_fieldwise'),
  ("MX::into_owned via struct update syntax", D + 'rdata/mx.rs', "MX {\n            preference: self.preference,\n            exchange: self.exchange.into_owned(),\n        }", "MX { exchange: self.exchange.clone().into_owned(), ..self }", 'untied:own:MX'),
+ ("is_link_local compares with localhost", D + 'name.rs', 'b"local".eq_ignore_ascii_case(&label.data)', 'b"localhost".eq_ignore_ascii_case(&label.data)', 'fail:name_relations_source'),
+ ("is_link_local looks at a suffix", D + 'name.rs', 'b"local".eq_ignore_ascii_case(&label.data)', 'label.data.to_ascii_lowercase().ends_with(b"local")', 'untied:name.relations'),
+ ("is_subdomain_of accepts equal lengths", D + 'name.rs', 'self.labels.len() > other.labels.len()', 'self.labels.len() >= other.labels.len()', 'fail:name_relations_source'),
+ ("is_subdomain_of compares text", D + 'name.rs', "            && other\n                .iter()\n                .rev()\n                .zip(self.iter().rev())\n                .all(|(o, s)| *o == *s)", "            && self.to_string().ends_with(&other.to_string())", 'untied:name.relations'),
+ ("extract_rcode_from_ttl shifts by 8", D + 'rdata/opt.rs', '(ttl & masks::RCODE_MASK) << 4', '(ttl & masks::RCODE_MASK) << 8', 'fail:opt_ttl_source'),
+ ("extract_rcode_from_ttl shifts in u8", D + 'rdata/opt.rs', 'let mut rcode = (ttl & masks::RCODE_MASK) << 4;', 'let mut rcode = (((ttl & masks::RCODE_MASK) as u8) << 4) as u32;', 'untied:opt.ttl'),
+ ("encode_ttl uses the version mask twice", D + 'rdata/opt.rs', '(header.response_code as u32 & masks::RCODE_MASK) >> 4', '(header.response_code as u32 & masks::VERSION_MASK) >> 4', 'fail:opt_ttl_source'),
+ ("escape also escapes spaces", 'simple-mdns/src/instance_information.rs', "            '\\\\' => escaped_name.push_str(\"\\\\\\\\\"),", "            '\\\\' => escaped_name.push_str(\"\\\\\\\\\"),\n            ' ' => escaped_name.push_str(\"\\\\ \"),", 'fail:escape_source'),
+ ("unescape written with byte slices", 'simple-mdns/src/instance_information.rs', "                if let Some(c) = maybe_scaped.next() {\n                    unescaped_name.push(c)\n                }", "                unescaped_name.extend(maybe_scaped.next());", 'untied:mdns.escape'),
+ ("tokio discovery loop returns the error", 'simple-mdns/src/async_discovery/service_discovery.rs',
+  "if let Err(err) = self.process_packet(&recv_buffer[..count], addr, &mut on_discovery).await {\n                        log::error!(\"Failed to process received packet {err}\");\n                    }",
+  "self.process_packet(&recv_buffer[..count], addr, &mut on_discovery).await?;", 'fail:discovery_send_policy'),
+ ("tokio discovery loop breaks on some errors", 'simple-mdns/src/async_discovery/service_discovery.rs',
+  "if let Err(err) = self.process_packet(&recv_buffer[..count], addr, &mut on_discovery).await {\n                        log::error!(\"Failed to process received packet {err}\");\n                    }",
+  "match self.process_packet(&recv_buffer[..count], addr, &mut on_discovery).await { Ok(()) => {} Err(err) => break Err(err), }", 'untied:mdns.discovery_send:tokio'),
+ ("sync send_packet returns nothing but panics", 'simple-mdns/src/sync_discovery/service_discovery.rs', "    if let Err(err) = socket.send_to(packet_bytes, address) {\n        log::error!(\"There was an error sending the  packet: {err}\");\n    }", "    socket.send_to(packet_bytes, address).unwrap();", 'untied:mdns.discovery_send:sync'),
  ("mdns refresh in millis", 'simple-mdns/src/resource_record_manager.rs', 'added + Duration::from_secs(ttl / 2)', 'added + Duration::from_millis(ttl / 2)', 'untied:mdns.expiration'),
 ]
 
